@@ -589,7 +589,11 @@ class Str(SerializableBase):
         writer.write(self._bytes_tmpl, instance, ctx=ctx)
 
     def deserialize(self, reader: Reader, ctx):
-        return reader.read(self._bytes_tmpl, ctx=ctx).rstrip(b"\x00").decode("utf8")
+        val = reader.read(self._bytes_tmpl, ctx=ctx)
+        # Only take off the one terminator serialize() adds, any further NULs are data
+        if self._null_term and val.endswith(b"\x00"):
+            val = val[:-1]
+        return val.decode("utf8")
 
     def default_value(self) -> Any:
         return ""
